@@ -351,7 +351,13 @@ class Gen:
                 return
             ktxt = "{%s}" % ", ".join(c[0] for c in keys)
             kcols = [Col(c[1].name, c[1].inp) for c in keys]
-            v = self.colref(fr, numeric=True)
+            knames = set(c[1].name for c in keys)
+            inner = fr.copy()
+            inner.cols = [c for c in fr.cols if c.name not in knames]
+            inner.pools = dict((i, [n for n in ns if n not in knames]) for i, ns in fr.pools.items())
+            v = self.colref(inner, numeric=True)
+            if v is None:
+                return
             if k == "group-agg":
                 n1, n2 = self.newname("n"), self.newname("m")
                 p.push("group %s (aggregate {%s = count this, %s = sum %s})" % (ktxt, n1, n2, v[0]), "group-agg", Frame(kcols + [Col(n1), Col(n2)], [], fr.pools))
@@ -488,7 +494,7 @@ class Gen:
             if any(fin.count(c.name) != 1 for c in fin.cols) or len(fin.wild) > 1:
                 self.step_select(prog, p, force=True)
                 fin = p.frame
-            prog.decls.append("let %s = (%s)" % (n, p.text(sep="\n  | ") if self.chance(0.3) else p.text()))
+            prog.decls.append("let %s = (\n  %s\n)" % (n, p.text(sep="\n  ")) if self.chance(0.3) else "let %s = (%s)" % (n, p.text()))
             pool = []
             for w in fin.wild:
                 pool += fin.pools.get(w, [])
